@@ -8,7 +8,7 @@ from __future__ import annotations
 import ast
 from typing import Callable, Iterable, Iterator
 
-from ..cfg import ALL, NORMAL
+from ..cfg import NORMAL
 from ..dataflow import defs_of, origins
 from ..model import AnalysisError, Func, Program, dotted, parent, unparse, walk_no_nested
 
@@ -62,6 +62,18 @@ def is_builtin_call(prog: Program, f: Func, call: ast.AST, name: str) -> bool:
     return q not in prog.functions and q not in prog.classes
 
 
+def rcall(prog: Program, f: Func, call: ast.Call, fanout: bool = True) -> list[str]:
+    """Program.resolve_call, memoised per program (rules ask about the same call sites many times)."""
+    memo = getattr(prog, "_d_rcall", None)
+    if memo is None:
+        memo = prog._d_rcall = {}  # type: ignore[attr-defined]
+    key = (f.qualname, id(call), fanout)
+    r = memo.get(key)
+    if r is None:
+        r = memo[key] = prog.resolve_call(f, call, fanout=fanout)
+    return r
+
+
 def resolves_to(prog: Program, f: Func, call: ast.AST, names: Iterable[str], *, attr_fallback: bool = True) -> bool:
     """`call` may invoke one of `names` (qualified names).  When the receiver cannot be typed the
     attribute name alone decides (`?.restore` matches `...Step.restore`)."""
@@ -69,21 +81,13 @@ def resolves_to(prog: Program, f: Func, call: ast.AST, names: Iterable[str], *, 
     if not isinstance(call, ast.Call):
         return False
     names = list(names)
-    for q in prog.resolve_call(f, call):
+    for q in rcall(prog, f, call):
         if q in names:
             return True
         if attr_fallback and q.startswith("?."):
             if any(n.rpartition(".")[2] == q[2:] for n in names):
                 return True
     return False
-
-
-def calls_in(f: Func, pred: Callable[[ast.Call], bool]) -> list[ast.Call]:
-    return [c for c in f.calls() if pred(c)]
-
-
-def node_ids(g, expr: ast.AST) -> list[int]:
-    return g.node_containing(expr)
 
 
 def is_awaited(call: ast.AST) -> bool:
@@ -117,14 +121,6 @@ def param_of_type(prog: Program, f: Func, cls_qualname: str) -> str | None:
         if t == cls_qualname:
             return p
     return None
-
-
-def expand(f: Func, expr: ast.AST, depth: int = 3) -> list[ast.AST]:
-    """`expr` and what its local names denote (def-use, all reaching definitions)."""
-    out = []
-    for o in origins(f, expr, depth):
-        out.append(o)
-    return out
 
 
 def mentions(f: Func, expr: ast.AST, pred: Callable[[ast.AST], bool], depth: int = 2, _seen: frozenset = frozenset()) -> bool:
@@ -318,49 +314,64 @@ def recovering_statuses(prog: Program, f: Func) -> set[str]:
 MUTATORS = {"append", "add", "pop", "discard", "remove", "clear", "setdefault", "update", "extend", "insert", "popitem", "__setitem__", "__delitem__"}
 
 
+def _module_store_index(prog: Program, m) -> dict[str, list[tuple[str, ast.AST, ast.AST, str]]]:
+    """`attr -> [(function qualname, statement/call, receiver expr, kind)]` for one module; cached on the
+    Module object (variant programs share the Module objects of unchanged files)."""
+    idx = getattr(m, "_d_stores", None)
+    if idx is not None:
+        return idx
+    idx = {}
+
+    def put(attr, f, n, recv, kind):
+        idx.setdefault(attr, []).append((f.qualname, n, recv, kind))
+
+    for f in funcs_by_module(prog).get(id(m), []):
+        for n in f.body_nodes():
+            tgts: list[ast.AST] = []
+            if isinstance(n, ast.Assign):
+                tgts = list(n.targets)
+            elif isinstance(n, (ast.AugAssign, ast.AnnAssign)):
+                if isinstance(n, ast.AnnAssign) and n.value is None and not isinstance(n.target, ast.Attribute):
+                    continue
+                tgts = [n.target]
+            elif isinstance(n, ast.Delete):
+                tgts = list(n.targets)
+            elif isinstance(n, (ast.For, ast.AsyncFor)):
+                tgts = [n.target]
+            elif isinstance(n, ast.Call):
+                fn = n.func
+                if isinstance(fn, ast.Attribute) and fn.attr in MUTATORS and isinstance(fn.value, ast.Attribute):
+                    put(fn.value.attr, f, n, fn.value.value, "mut")
+                elif isinstance(fn, ast.Name) and fn.id in ("setattr", "delattr") and len(n.args) >= 2 and isinstance(n.args[1], ast.Constant) and isinstance(n.args[1].value, str):
+                    put(n.args[1].value, f, n, n.args[0], "setattr")
+                continue
+            else:
+                continue
+            while tgts:
+                t = tgts.pop()
+                if isinstance(t, (ast.Tuple, ast.List)):
+                    tgts.extend(t.elts)
+                elif isinstance(t, ast.Starred):
+                    tgts.append(t.value)
+                elif isinstance(t, ast.Attribute):
+                    put(t.attr, f, n, t.value, "assign")
+                elif isinstance(t, ast.Subscript) and isinstance(t.value, ast.Attribute):
+                    put(t.value.attr, f, n, t.value.value, "item")
+    m._d_stores = idx
+    return idx
+
+
 def attr_writes(prog: Program, attr: str) -> Iterator[tuple[Func, ast.AST, ast.AST, str]]:
     """Whole-program stores to `<recv>.<attr>`: (function, statement/call, receiver expr, kind)
-    kind: 'assign' (attribute rebound), 'item' (X.attr[k] = / del), 'mut' (X.attr.<mutator>()), 'setattr'."""
-    needle = "." + attr
+    kind: 'assign' (attribute rebound / deleted), 'item' (X.attr[k] = / del), 'mut' (X.attr.<mutator>()),
+    'setattr'."""
     for m in prog.modules.values():
-        if needle not in m.source and f'"{attr}"' not in m.source and f"'{attr}'" not in m.source:
+        if attr not in m.source:
             continue
-        for f in prog.all_funcs():
-            if f.module is not m:
-                continue
-            for n in f.body_nodes():
-                tgts: list[ast.AST] = []
-                if isinstance(n, ast.Assign):
-                    tgts = list(n.targets)
-                elif isinstance(n, (ast.AugAssign, ast.AnnAssign)):
-                    if isinstance(n, ast.AnnAssign) and n.value is None and not isinstance(n.target, ast.Attribute):
-                        continue
-                    tgts = [n.target]
-                elif isinstance(n, ast.Delete):
-                    tgts = list(n.targets)
-                elif isinstance(n, (ast.For, ast.AsyncFor)):
-                    tgts = [n.target]
-                elif isinstance(n, ast.Call):
-                    fn = n.func
-                    if isinstance(fn, ast.Attribute) and fn.attr in MUTATORS and isinstance(fn.value, ast.Attribute) and fn.value.attr == attr:
-                        yield f, n, fn.value.value, "mut"
-                    elif isinstance(fn, ast.Name) and fn.id in ("setattr", "delattr") and len(n.args) >= 2 and isinstance(n.args[1], ast.Constant) and n.args[1].value == attr:
-                        yield f, n, n.args[0], "setattr"
-                    continue
-                flat: list[ast.AST] = []
-                while tgts:
-                    t = tgts.pop()
-                    if isinstance(t, (ast.Tuple, ast.List)):
-                        tgts.extend(t.elts)
-                    elif isinstance(t, ast.Starred):
-                        tgts.append(t.value)
-                    else:
-                        flat.append(t)
-                for t in flat:
-                    if isinstance(t, ast.Attribute) and t.attr == attr:
-                        yield f, n, t.value, "assign"
-                    elif isinstance(t, ast.Subscript) and isinstance(t.value, ast.Attribute) and t.value.attr == attr:
-                        yield f, n, t.value.value, "item"
+        for fq, n, recv, kind in _module_store_index(prog, m).get(attr, ()):
+            f = prog.functions.get(fq)
+            if f is not None and f.module is m:
+                yield f, n, recv, kind
 
 
 def receiver_may_be(prog: Program, f: Func, recv: ast.AST, cls_qualname: str) -> bool:
@@ -423,5 +434,489 @@ def handler_region(g, h: ast.ExceptHandler, kinds=NORMAL) -> set[int]:
     return g.reach(ids, kinds=kinds, include_src=True)
 
 
-__all__ = [n for n in dir() if not n.startswith("__")]
-_ = (ALL,)
+
+
+def funcs_by_module(prog: Program) -> dict[int, list[Func]]:
+    idx = getattr(prog, "_d_funcs_by_mod", None)
+    if idx is None:
+        idx = {}
+        for f in prog.all_funcs():
+            idx.setdefault(id(f.module), []).append(f)
+        prog._d_funcs_by_mod = idx  # type: ignore[attr-defined]
+    return idx
+
+
+def funcs_mentioning(prog: Program, *needles: str) -> Iterator[Func]:
+    """Functions of the modules whose source text contains one of `needles` (cheap prefilter for
+    whole-program sweeps; a construct cannot occur in a module whose text does not contain its name)."""
+    idx = funcs_by_module(prog)
+    for m in prog.modules.values():
+        if any(n in m.source for n in needles):
+            yield from idx.get(id(m), [])
+
+
+def _module_call_index(prog: Program, m) -> dict[str, list[tuple[str, ast.Call]]]:
+    """Syntactic index `simple callee name -> [(function qualname, call)]` of one module.  Cached on the
+    Module object: variant programs share the Module objects (and ASTs) of unchanged files."""
+    idx = getattr(m, "_d_calls", None)
+    if idx is None:
+        idx = {}
+        for f in funcs_by_module(prog).get(id(m), []):
+            for c in f.calls():
+                fn = c.func
+                nm = fn.attr if isinstance(fn, ast.Attribute) else (fn.id if isinstance(fn, ast.Name) else None)
+                if nm is not None:
+                    idx.setdefault(nm, []).append((f.qualname, c))
+        m._d_calls = idx
+    return idx
+
+
+def callers_of(prog: Program, qualnames: Iterable[str]) -> list[tuple[Func, ast.Call]]:
+    """Whole-program call sites that may invoke one of `qualnames` (same answer as Program.callers;
+    only calls whose syntactic callee name matches are resolved)."""
+    qualnames = set(qualnames)
+    simple = {q.rpartition(".")[2] for q in qualnames}
+    out: dict[int, tuple[Func, ast.Call]] = {}
+    for m in prog.modules.values():
+        idx = _module_call_index(prog, m)
+        for nm in simple:
+            for fq, c in idx.get(nm, ()):
+                f = prog.functions.get(fq)
+                if f is None or f.module is not m:
+                    continue
+                if any(q in qualnames for q in rcall(prog, f, c)):
+                    out[id(c)] = (f, c)
+    return list(out.values())
+
+
+# ------------------------------------------------------------------ short-circuit truth tables of a test
+
+
+def _atoms(e: ast.AST, out: list) -> list:
+    if isinstance(e, ast.BoolOp):
+        for v in e.values:
+            _atoms(v, out)
+    elif isinstance(e, ast.UnaryOp) and isinstance(e.op, ast.Not):
+        _atoms(e.operand, out)
+    elif isinstance(e, (ast.NamedExpr, ast.Await)):
+        _atoms(e.value, out)
+    elif _bool_compare(e) is not None:
+        _atoms(_bool_compare(e)[0], out)
+    else:
+        out.append(e)
+    return out
+
+
+def _bool_compare(e: ast.AST):
+    """`x is True` / `x == False` / `x is not True` ... -> (x, value of the comparison when x is True)."""
+    if isinstance(e, ast.Compare) and len(e.ops) == 1:
+        op, l, r = e.ops[0], e.left, e.comparators[0]
+        for x, c in ((l, r), (r, l)):
+            if isinstance(c, ast.Constant) and isinstance(c.value, bool):
+                if isinstance(op, (ast.Is, ast.Eq)):
+                    return x, c.value
+                if isinstance(op, (ast.IsNot, ast.NotEq)):
+                    return x, not c.value
+    return None
+
+
+def _ev(e: ast.AST, val: dict, seen: set) -> bool:
+    if isinstance(e, ast.BoolOp):
+        if isinstance(e.op, ast.And):
+            for v in e.values:
+                if not _ev(v, val, seen):
+                    return False
+            return True
+        for v in e.values:
+            if _ev(v, val, seen):
+                return True
+        return False
+    if isinstance(e, ast.UnaryOp) and isinstance(e.op, ast.Not):
+        return not _ev(e.operand, val, seen)
+    if isinstance(e, (ast.NamedExpr, ast.Await)):
+        return _ev(e.value, val, seen)
+    bc = _bool_compare(e)
+    if bc is not None:
+        x = _ev(bc[0], val, seen)
+        return bc[1] if x else (not bc[1])
+    seen.add(id(e))
+    return val[id(e)]
+
+
+def outcomes_when(test: ast.AST, is_target: Callable[[ast.AST], bool], value: bool) -> set[str] | None:
+    """Outcomes ('t'/'f') the condition `test` can have in an evaluation (short-circuit semantics) that
+    evaluates the atom recognised by `is_target` to `value`; every other atom ranges over both truth
+    values.  None when the test has no such atom or too many atoms."""
+    import itertools
+
+    atoms = _atoms(test, [])
+    tg = [a for a in atoms if is_target(a)]
+    if len(tg) != 1 or len(atoms) > 8:
+        return None
+    others = [a for a in atoms if a is not tg[0]]
+    out: set[str] = set()
+    for bits in itertools.product((True, False), repeat=len(others)):
+        val = {id(a): b for a, b in zip(others, bits)}
+        val[id(tg[0])] = value
+        seen: set = set()
+        r = _ev(test, val, seen)
+        if id(tg[0]) in seen:
+            out.add("t" if r else "f")
+    return out
+
+
+# ------------------------------------------------------------------ following extracted helpers
+
+
+def _matches(prog: Program, f: Func, c: ast.Call, names, attr_fallback: bool) -> bool:
+    for q in rcall(prog, f, c):
+        if q in names:
+            return True
+        if attr_fallback and q.startswith("?.") and any(n.rpartition(".")[2] == q[2:] for n in names):
+            return True
+    return False
+
+
+def stage_calls(prog: Program, f: Func, names: Iterable[str], *, attr_fallback: bool = False, depth: int = 2,
+                _memo: dict | None = None) -> list[tuple[ast.Call, Func | None]]:
+    """Calls in `f` that perform the stage named by `names`: either directly -> (call, None), or by
+    invoking a helper defined in the same module / class that (transitively, `depth` levels) does
+    -> (call, helper).  Lets rules survive `extract method` refactorings."""
+    names = list(names)
+    memo = _memo if _memo is not None else {}
+    out: list[tuple[ast.Call, Func | None]] = []
+    for c in f.calls():
+        if _matches(prog, f, c, names, attr_fallback):
+            out.append((c, None))
+            continue
+        if depth <= 0:
+            continue
+        fn = c.func
+        simple = isinstance(fn, ast.Name) or (isinstance(fn, ast.Attribute) and isinstance(fn.value, ast.Name) and fn.value.id in ("self", "cls"))
+        if not simple:
+            continue
+        for q in rcall(prog, f, c, fanout=False):
+            h = prog.functions.get(q)
+            if h is None or h.module is not f.module or h is f:
+                continue
+            key = (h.qualname, depth)
+            if key not in memo:
+                memo[key] = None  # cycle guard
+                memo[key] = bool(stage_calls(prog, h, names, attr_fallback=attr_fallback, depth=depth - 1, _memo=memo))
+            if memo[key]:
+                out.append((c, h))
+                break
+    return out
+
+
+def lock_sites(p: Program, f: Func, depth: int = 2):
+    """[(ast node evaluated at the acquisition, helper|None)]: `enter_async_context(x.lock)`, `async with x.lock`,
+    `x.lock.acquire()`, directly or inside a helper of the same module."""
+    out = []
+    for n in f.body_nodes():
+        if isinstance(n, ast.Attribute) and n.attr == "lock":
+            par = parent(n)
+            if isinstance(par, ast.Call) and isinstance(par.func, ast.Attribute) and par.func.attr == "enter_async_context":
+                out.append((par, None))
+            elif isinstance(par, ast.Attribute) and par.attr == "acquire":
+                out.append((par, None))
+            elif isinstance(par, ast.withitem):
+                out.append((n, None))
+    if depth > 0:
+        for c in f.calls():
+            fn = c.func
+            if isinstance(fn, ast.Name) or (isinstance(fn, ast.Attribute) and isinstance(fn.value, ast.Name) and fn.value.id in ("self", "cls")):
+                for q in rcall(p, f, c, fanout=False):
+                    h = p.functions.get(q)
+                    if h is not None and h.module is f.module and h is not f and lock_sites(p, h, depth - 1):
+                        out.append((c, h))
+    return out
+
+
+
+
+def outcome_table(test: ast.AST, is_target: Callable[[ast.AST], bool]) -> list[tuple[str, bool, bool | None]] | None:
+    """All evaluations of `test` (short-circuit semantics, every atom ranging over both truth values):
+    (outcome 't'/'f', target atom evaluated?, value given to the target atom)."""
+    import itertools
+
+    atoms = _atoms(test, [])
+    tg = [a for a in atoms if is_target(a)]
+    if len(tg) != 1 or len(atoms) > 8:
+        return None
+    rows = set()
+    for bits in itertools.product((True, False), repeat=len(atoms)):
+        val = {id(a): b for a, b in zip(atoms, bits)}
+        seen: set = set()
+        r = _ev(test, val, seen)
+        ev = id(tg[0]) in seen
+        rows.add(("t" if r else "f", ev, val[id(tg[0])] if ev else None))
+    return sorted(rows, key=str)
+
+
+def effective_test(f: Func, expr: ast.AST) -> ast.AST:
+    """The condition a test really evaluates: a bare local (or `not local`) assigned exactly once from a
+    boolean expression is replaced by that expression."""
+    if isinstance(expr, ast.UnaryOp) and isinstance(expr.op, ast.Not) and isinstance(expr.operand, ast.Name):
+        inner = effective_test(f, expr.operand)
+        if inner is not expr.operand:
+            return ast.UnaryOp(op=ast.Not(), operand=inner)
+        return expr
+    if isinstance(expr, ast.Name):
+        ds = defs_of(f, expr.id)
+        if len(ds) == 1 and ds[0].kind == "assign" and ds[0].index is None and ds[0].value is not None:
+            return ds[0].value
+    return expr
+
+
+# ------------------------------------------------------------------ facts established by dominating tests
+
+
+def path_facts(g, nid: int) -> list[tuple[ast.AST, bool]]:
+    """(sub-expression, truth value) pairs that hold whenever CFG node `nid` executes: for every test that
+    dominates the node and from which the node is reachable through exactly one outcome, the facts forced
+    by that outcome (see `implied`)."""
+    facts: list[tuple[ast.AST, bool]] = []
+    for t in g.nodes.values():
+        if t.kind != "test" or t.id == nid or t.ast is None:
+            continue
+        if not g.dominates(t.id, nid):
+            continue
+        in_t = nid in region(g, t.id, "t")
+        in_f = nid in region(g, t.id, "f")
+        if in_t != in_f:
+            facts += implied(t.ast, in_t)
+    return facts
+
+
+def expr_facts(expr: ast.AST) -> list[tuple[ast.AST, bool]]:
+    """Facts established for sub-expression `expr` by the conditional expressions / comprehension filters
+    that enclose it inside one statement (IfExp branches, `if` clauses of comprehensions)."""
+    from ..model import parent as _parent
+
+    facts: list[tuple[ast.AST, bool]] = []
+    child, cur = expr, _parent(expr)
+    while cur is not None and not isinstance(cur, ast.stmt):
+        if isinstance(cur, ast.IfExp):
+            if child is cur.body:
+                facts += implied(cur.test, True)
+            elif child is cur.orelse:
+                facts += implied(cur.test, False)
+        elif isinstance(cur, (ast.ListComp, ast.SetComp, ast.GeneratorExp, ast.DictComp)):
+            elts = [cur.key, cur.value] if isinstance(cur, ast.DictComp) else [cur.elt]
+            if any(child is e for e in elts):
+                for gen in cur.generators:
+                    for cond in gen.ifs:
+                        facts += implied(cond, True)
+        child, cur = cur, _parent(cur)
+    return facts
+
+
+def has_fact(facts, pred: Callable[[ast.AST], bool], value: bool) -> bool:
+    return any(v is value and pred(e) for e, v in facts)
+
+
+def membership_fact(facts, left: Callable[[ast.AST], bool], container: Callable[[ast.AST], bool]) -> bool | None:
+    """True / False when the facts establish `left in container` / `left not in container`; None otherwise."""
+    for e, v in facts:
+        if isinstance(e, ast.Compare) and len(e.ops) == 1 and left(e.left) and container(e.comparators[0]):
+            if isinstance(e.ops[0], ast.In):
+                return v
+            if isinstance(e.ops[0], ast.NotIn):
+                return not v
+    return None
+
+
+# ------------------------------------------------------------------ coroutine calls that are never awaited
+
+_ASYNC_LIB = {"asyncio.gather", "asyncio.sleep", "asyncio.wait_for", "asyncio.wait", "asyncio.shield"}
+_SCHEDULERS = {"create_task", "ensure_future", "gather", "wait_for", "wait", "shield", "enter_async_context", "run_coroutine_threadsafe", "run"}
+
+
+def _async_names(prog: Program) -> dict[str, tuple[int, int]]:
+    idx = getattr(prog, "_d_async_names", None)
+    if idx is None:
+        idx = {}
+        for f in prog.all_funcs():
+            if f.cls is None and f.outer is None:
+                continue
+            a, n = idx.get(f.name, (0, 0))
+            idx[f.name] = (a + (1 if f.is_async else 0), n + 1)
+        prog._d_async_names = idx  # type: ignore[attr-defined]
+    return idx
+
+
+def is_coroutine_call(prog: Program, f: Func, c: ast.Call) -> bool:
+    qs = rcall(prog, f, c)
+    known = [prog.functions[q] for q in qs if q in prog.functions]
+    if known:
+        return all(h.is_async for h in known)
+    if any(q in _ASYNC_LIB for q in qs):
+        return True
+    if len(qs) == 1 and qs[0].startswith("?."):
+        a, n = _async_names(prog).get(qs[0][2:], (0, 0))
+        return n > 0 and a == n
+    return False
+
+
+def unawaited_coroutines(prog: Program, f: Func) -> list[ast.Call]:
+    """Calls in `f` that produce a coroutine / future which is neither awaited nor handed to a scheduler
+    (create_task, gather, ...) nor returned."""
+    from ..model import ancestors as _anc, parent as _parent
+
+    out = []
+    for c in f.calls():
+        if not is_coroutine_call(prog, f, c):
+            continue
+        par = _parent(c)
+        if isinstance(par, ast.Await) or isinstance(par, ast.Return):
+            continue
+        ok = False
+        for a in _anc(c):
+            if isinstance(a, ast.stmt):
+                break
+            if isinstance(a, ast.Call) and a is not c:
+                nm = a.func.attr if isinstance(a.func, ast.Attribute) else (a.func.id if isinstance(a.func, ast.Name) else "")
+                if nm in _SCHEDULERS:
+                    ok = True
+                    break
+        if not ok:
+            out.append(c)
+    return out
+
+
+def check_awaited(ctx, rule: str, qualnames: Iterable[str]) -> None:
+    """One obligation per anchored function: every coroutine-producing call is awaited / scheduled."""
+    for q in qualnames:
+        f = ctx.prog.func(q)
+        bad = unawaited_coroutines(ctx.prog, f)
+        ctx.ob(rule, f"every coroutine call of {f.name} is awaited or scheduled", not bad, func=f, node=(bad[0] if bad else f.node),
+               instance=f"awaited:{f.qualname}:" + (unparse(bad[0].func) if bad else ""),
+               message=f"`{unparse(bad[0])[:100]}` creates a coroutine that is never awaited: its result is a coroutine object "
+               "(always truthy) and its effect never happens" if bad else "")
+
+
+# ------------------------------------------------------------------ names / attributes that are never defined
+
+import builtins as _builtins
+
+_BUILTIN_NAMES = set(dir(_builtins))
+
+
+def _bound_names(fn_node: ast.AST) -> set[str]:
+    """Names bound anywhere inside a function (parameters, assignments, loops, withs, walrus, comprehensions,
+    imports, nested defs, except-as) - flow-insensitive."""
+    out: set[str] = set()
+    a = fn_node.args
+    for x in a.posonlyargs + a.args + a.kwonlyargs + [y for y in (a.vararg, a.kwarg) if y]:
+        out.add(x.arg)
+    for n in ast.walk(fn_node):
+        if isinstance(n, ast.Name) and isinstance(n.ctx, (ast.Store, ast.Del)):
+            out.add(n.id)
+        elif isinstance(n, (ast.FunctionDef, ast.AsyncFunctionDef, ast.ClassDef)) and n is not fn_node:
+            out.add(n.name)
+        elif isinstance(n, ast.ExceptHandler) and n.name:
+            out.add(n.name)
+        elif isinstance(n, (ast.Import, ast.ImportFrom)):
+            for al in n.names:
+                out.add((al.asname or al.name).split(".")[0])
+        elif isinstance(n, ast.arg):
+            out.add(n.arg)  # lambda / nested function parameters
+        elif isinstance(n, (ast.Global, ast.Nonlocal)):
+            out.update(n.names)
+        elif isinstance(n, (ast.MatchAs, ast.MatchStar)) and n.name:
+            out.add(n.name)
+        elif isinstance(n, ast.MatchMapping) and n.rest:
+            out.add(n.rest)
+    return out
+
+
+def _module_names(m) -> set[str]:
+    cached = getattr(m, "_d_names", None)
+    if cached is None:
+        cached = set(m.imports)
+        for n in ast.walk(m.tree):
+            if isinstance(n, (ast.FunctionDef, ast.AsyncFunctionDef, ast.ClassDef)):
+                cached.add(n.name)
+        for n in m.tree.body:
+            for x in ast.walk(n) if isinstance(n, (ast.Assign, ast.AnnAssign, ast.AugAssign, ast.For, ast.With, ast.If, ast.Try)) else []:
+                if isinstance(x, ast.Name) and isinstance(x.ctx, ast.Store):
+                    cached.add(x.id)
+        m._d_names = cached
+    return cached
+
+
+def undefined_names(prog: Program, f: Func) -> list[ast.Name]:
+    """Loads of a name that no scope visible from `f` ever binds (NameError / UnboundLocalError when reached)."""
+    bound = set()
+    h: Func | None = f
+    while h is not None:
+        bound |= _bound_names(h.node)
+        h = h.outer
+    bound |= _module_names(f.module) | _BUILTIN_NAMES | {"__class__", "__file__", "__name__", "__package__"}
+    return [n for n in ast.walk(f.node) if isinstance(n, ast.Name) and isinstance(n.ctx, ast.Load) and n.id not in bound]
+
+
+def undefined_self_attrs(prog: Program, cq: str) -> list[tuple[Func, ast.Attribute]]:
+    """`self.<a>` reads in the methods of class `cq` where `<a>` is defined nowhere along the MRO (no method,
+    no class-level name, no `self.<a> = ..` in any method, not in __slots__).  Classes outside the program
+    in the MRO make the answer unknown -> nothing is reported for them."""
+    defined: set[str] = set()
+    for k in prog.mro(cq):
+        c = prog.classes.get(k)
+        if c is None:
+            if k.rpartition(".")[2] not in ("ABC", "object", "Generic", "Protocol"):
+                return []
+            continue
+        defined |= set(c.methods)
+        for n in c.node.body:
+            if isinstance(n, (ast.Assign, ast.AnnAssign)):
+                for t in (n.targets if isinstance(n, ast.Assign) else [n.target]):
+                    if isinstance(t, ast.Name):
+                        defined.add(t.id)
+                        if t.id == "__slots__" and getattr(n, "value", None) is not None:
+                            defined |= {e.value for e in ast.walk(n.value) if isinstance(e, ast.Constant) and isinstance(e.value, str)}
+        for m in c.methods.values():
+            for n in ast.walk(m.node):
+                if isinstance(n, ast.Attribute) and isinstance(n.ctx, ast.Store) and isinstance(n.value, ast.Name) and n.value.id == "self":
+                    defined.add(n.attr)
+    # __slots__ names are only *declared*: they still need an assignment; handled by removing them when unassigned
+    out = []
+    c = prog.classes.get(cq)
+    if c is None:
+        return out
+    slots: set[str] = set()
+    for n in c.node.body:
+        if isinstance(n, ast.Assign) and any(isinstance(t, ast.Name) and t.id == "__slots__" for t in n.targets):
+            slots = {e.value for e in ast.walk(n.value) if isinstance(e, ast.Constant) and isinstance(e.value, str)}
+    assigned = set()
+    for k in prog.mro(cq):
+        ck = prog.classes.get(k)
+        for m in (ck.methods.values() if ck else []):
+            for n in ast.walk(m.node):
+                if isinstance(n, ast.Attribute) and isinstance(n.ctx, ast.Store) and isinstance(n.value, ast.Name) and n.value.id == "self":
+                    assigned.add(n.attr)
+    defined -= {s_ for s_ in slots if s_ not in assigned}
+    for m in c.methods.values():
+        for n in ast.walk(m.node):
+            if isinstance(n, ast.Attribute) and isinstance(n.ctx, ast.Load) and isinstance(n.value, ast.Name) and n.value.id == "self" and n.attr not in defined:
+                if n.attr.startswith("__") and n.attr.endswith("__"):
+                    continue
+                out.append((m, n))
+    return out
+
+
+def check_defined(ctx, rule: str, qualnames: Iterable[str], classes: Iterable[str] = ()) -> None:
+    """One obligation per anchored function / class: no name (no `self.<attr>`) is used that is bound nowhere."""
+    for q in qualnames:
+        f = ctx.prog.func(q)
+        bad = undefined_names(ctx.prog, f)
+        ctx.ob(rule, f"every name used by {f.name} is bound in some enclosing scope", not bad, func=f, node=(bad[0] if bad else f.node),
+               instance=f"defined:{f.qualname}:" + (bad[0].id if bad else ""),
+               message=f"`{bad[0].id}` is used in {f.qualname} but bound nowhere: NameError as soon as the statement runs" if bad else "")
+    for cq in classes:
+        c = ctx.prog.cls(cq)
+        bad2 = undefined_self_attrs(ctx.prog, cq)
+        ctx.ob(rule, f"every self.<attr> read by {c.name} is assigned somewhere in its class hierarchy", not bad2, qualname=cq,
+               func=(bad2[0][0] if bad2 else None), node=(bad2[0][1] if bad2 else c.node), instance=f"attrs:{cq}:" + (bad2[0][1].attr if bad2 else ""),
+               message=f"`self.{bad2[0][1].attr}` is read in {bad2[0][0].qualname} but never assigned in the class hierarchy: AttributeError" if bad2 else "")
